@@ -15,6 +15,7 @@ if TYPE_CHECKING:
 
 from autoarray.structures.arrays import array_2d_util
 from autoconf import conf
+from autoconf import cached_property
 
 
 def to_new_array(func):
@@ -83,6 +84,7 @@ class AbstractNDArray(ABC):
     def invert(self):
         new = self.copy()
         new._array = np.invert(new._array)
+        new._clear_cached_properties()
         return new
 
     @classmethod
@@ -135,7 +137,17 @@ class AbstractNDArray(ABC):
         """
         new_array = self.copy()
         new_array._array = array
+        new_array._clear_cached_properties()
         return new_array
+
+    def _clear_cached_properties(self):
+        """
+        Remove the values of all cached properties stored in the instance, so that after its array is replaced
+        they are recomputed from the new contents instead of being inherited from the object it was copied from.
+        """
+        for key in list(self.__dict__):
+            if isinstance(getattr(type(self), key, None), cached_property):
+                del self.__dict__[key]
 
     def copy(self):
         new = copy(self)
